@@ -49,6 +49,11 @@ M = [
  ("group-key-no-separator", "C09", "aggregate_plan.go", "\tkey = append(key, []byte(fmt.Sprintf(\"%d:\", len(part)))...)\n\treturn append(key, part...)", "\tif len(part) > 9 {\n\t\tkey = append(key, []byte(fmt.Sprintf(\"%d:\", len(part)))...)\n\t}\n\treturn append(key, part...)"),
  ("substr-panic-again", "C06", "scalar_func.go", "\tend = min(end, len(val))\n\tif start >= end {\n\t\treturn \"\"\n\t}", "\tend = min(end, len(val))\n\tif start > end+1 {\n\t\treturn \"\"\n\t}"),
 ]
+NOTES = {
+ "chunk-bind-any-length": "equivalent mutant: a cached column longer than the chunk is never produced (AdjustChunkCache always cuts to the chosen rows)",
+ "err-window-trim-off": "equivalent for the property: the window moves by one byte, the caret stays under the reported offset",
+ "reorder-sub": "equivalent since repair 47 (numeric chains are no longer re-associated at all, and - is never a text operator)",
+}
 EXTRA2 = {
  # second edit in the same file (both sites change together)
  "chunk-key-alias-only": ("plan.go", "func (c *ExecuteCtx) SetChunkFieldResult(name string, key []byte, chunk []any) {\n\tif !c.EnableCache {\n\t\treturn\n\t}\n\tckey := fmt.Sprintf(\"%s-%s\", name, string(key))", "func (c *ExecuteCtx) SetChunkFieldResult(name string, key []byte, chunk []any) {\n\tif !c.EnableCache {\n\t\treturn\n\t}\n\tckey := fmt.Sprintf(\"%s-%s\", name, string(key[:len(key)/2]))"),
@@ -111,6 +116,8 @@ def main():
                 sh("rm -f replays/%s/found-*.json; git checkout -- evidence" % p, ROOT)
             caught = [p for p, c in r["checks"].items() if c["exit"] == 1]
             print("%-28s breaks %-8s caught by %s  %s" % (name, props, caught or "NOBODY", {p: c["exit"] for p, c in r["checks"].items()}))
+            if name in NOTES:
+                r["note"] = NOTES[name]
             results[name] = r
             json.dump(results, open(resf, "w"), indent=1)
     finally:
